@@ -48,6 +48,7 @@ func vpAuditLogL(st *vpStore, self string, takeover bool, prio int, stoppedWithD
 				// replacement of another owner's live record: only strictly higher priority with takeover enabled
 				vpAssert("C01.mut.replace-strictly-higher", vpAnd(takeover, vpAnd(vpRecParses(m.prevVal), prio > vpRecPrio(m.prevVal))))
 				vpAssert("C10.replace-only-strictly-higher", vpAnd(takeover, vpAnd(vpRecParses(m.prevVal), prio > vpRecPrio(m.prevVal))))
+				vpAssert("C13.no-claim-over-foreign", vpAnd(takeover, vpAnd(vpRecParses(m.prevVal), prio > vpRecPrio(m.prevVal))))
 				vpAssert("C01.mut.replace-revision-checked", m.rev == m.prevSeq)
 				if t, ok := vpConcreteStr(vpRecTok(m.newVal)); ok {
 					vpAssert("C05.fresh-per-acquire", !seen[t])
